@@ -395,7 +395,7 @@ Proof. intros. split; [reflexivity|]. split; [apply wrap64_range|apply wrap64_co
 (* ================================================================= 4b. floats, list concatenation, apply *)
 
 (* every float is true, 0.0 included (expressions.go:IsTruthy has no float case) *)
-Lemma float_is_true_ref : forall h, truthy (VFlt h) = true.
+Lemma float_is_true_ref : forall m e, truthy (VFlt m e) = true.
 Proof. reflexivity. Qed.
 
 Lemma val_list_list_val : forall l, val_list (list_val l) = Some l.
@@ -431,6 +431,31 @@ Proof. intros ap f a o s Hf Ha. simpl. rewrite Hf. unfold bindM, get_arr. rewrit
 Lemma apply_passes_list_ref : forall ap f v l s, is_fn f = true ->
   prim_apply ap PApply [f; list_val (v :: l)] s = ap f (v :: l) s.
 Proof. intros ap f v l s Hf. simpl. rewrite Hf. rewrite val_list_list_val. reflexivity. Qed.
+
+(* integer division (numerictower.go:NumericIntDo Div): an exact quotient is an integer, an inexact one is
+   the float64 quotient fdiv_z, written m * 2^e *)
+Lemma div_ref : forall ap a b s, (b =? 0) = false ->
+  prim_apply ap PDiv [VInt a; VInt b] s =
+  if Z.rem a b =? 0 then (Done (VInt (wrap64 (Z.quot a b))), s)
+  else (Done (VFlt (fst (fdiv_z a b)) (snd (fdiv_z a b))), s).
+Proof. intros ap a b s Hb. simpl. rewrite Hb. destruct (Z.rem a b =? 0); reflexivity. Qed.
+
+Lemma div_exact_ref : forall ap a b s, (b =? 0) = false -> Z.rem a b = 0 ->
+  prim_apply ap PDiv [VInt a; VInt b] s = (Done (VInt (wrap64 (Z.quot a b))), s).
+Proof. intros ap a b s Hb Hr. simpl. rewrite Hb, Hr. reflexivity. Qed.
+
+Lemma div_inexact_not_int_ref : forall ap a b s z, (b =? 0) = false -> Z.rem a b <> 0 ->
+  fst (prim_apply ap PDiv [VInt a; VInt b] s) <> Done (VInt z).
+Proof.
+  intros ap a b s z Hb Hr. simpl. rewrite Hb. destruct (Z.rem a b =? 0) eqn:E; [apply Z.eqb_eq in E; contradiction|].
+  simpl. discriminate.
+Qed.
+
+(* concat / append on a string: characters are appended as their UTF-8 encoding *)
+Lemma concat_str_chr_ref : forall ap s0 c t s,
+  prim_apply ap PConcat [VStr s0; VChr c; VStr t] s = (Done (VStr ((s0 ++ utf8 c) ++ t)), s) /\
+  prim_apply ap PAppend [VStr s0; VChr c] s = (Done (VStr (s0 ++ utf8 c)), s).
+Proof. intros. split; reflexivity. Qed.
 
 (* ================================================================= 5. fuel monotonicity *)
 
@@ -880,6 +905,13 @@ Section PresOpen.
     destruct acc; try apply pres_raise; destruct b; try apply pres_raise. apply IH.
   Qed.
 
+  Lemma pres_divide : forall r acc, pres (divide acc r).
+  Proof.
+    induction r as [|b r IH]; simpl; intros acc; [apply pres_ret|].
+    destruct acc; try apply pres_raise. destruct b; try apply pres_raise.
+    destruct (_ =? 0); [apply pres_raise|]. destruct (_ =? 0); apply IH.
+  Qed.
+
   Lemma pres_compare_prim : forall test args, pres (compare_prim test args).
   Proof.
     intros test args. unfold compare_prim.
@@ -919,7 +951,7 @@ Section PresOpen.
   Ltac pres_auto :=
     repeat first
       [ apply pres_ret | apply pres_raise | apply pres_alloc_arr | apply pres_aset_write
-      | apply pres_compare_prim | apply pres_arith | apply Hap | apply pres_map_pairs | apply pres_cat_arrs
+      | apply pres_compare_prim | apply pres_arith | apply pres_divide | apply Hap | apply pres_map_pairs | apply pres_cat_arrs
       | apply pres_bind; [first [apply pres_get_arr | apply pres_map_arr | apply pres_cat_arrs]|intros ?]
       | match goal with |- pres (match ?x with _ => _ end) => destruct x end
       | match goal with |- pres (if ?x then _ else _) => destruct x end ].
@@ -1348,6 +1380,13 @@ Section NonInterference.
       destruct acc; try apply ni_raise; destruct b; try apply ni_raise. apply IH. exact I.
     Qed.
 
+    Lemma ni_divide : forall r acc, val_ok acc -> ni val_ok (divide acc r).
+    Proof.
+      induction r as [|b r IH]; simpl; intros acc Ha; [apply ni_ret; assumption|].
+      destruct acc; try apply ni_raise. destruct b; try apply ni_raise.
+      destruct (_ =? 0); [apply ni_raise|]. destruct (_ =? 0); apply IH; exact I.
+    Qed.
+
     Lemma ni_compare_prim : forall test args, ni val_ok (compare_prim test args).
     Proof.
       intros test args. unfold compare_prim.
@@ -1487,8 +1526,10 @@ Section NonInterference.
         destruct args as [|a [|v [|? ?]]]; try (destruct a; apply ni_raise); try apply ni_raise.
         inversion Hargs as [|? ? Ha Hr]; subst. inversion Hr; subst.
         destruct a; try apply ni_raise.
-        eapply ni_bind; [apply ni_get_arr|]. intros o Ho; cbv beta in Ho. apply ni_alloc_arr.
-        apply Forall_app. split; [assumption|constructor; [assumption|constructor]].
+        + destruct v; first [apply ni_raise | apply ni_ret; exact I].
+        + eapply ni_bind; [apply ni_get_arr|]. intros o Ho; cbv beta in Ho. apply ni_alloc_arr.
+          apply Forall_app. split; [assumption|constructor; [assumption|constructor]].
+        + destruct a; try apply ni_raise; destruct v; apply ni_raise.
       - (* PLen *)
         destruct args as [|a [|? ?]]; try (destruct a; apply ni_raise); try apply ni_raise.
         destruct a; try apply ni_raise; try (apply ni_ret; exact I).
@@ -1498,6 +1539,7 @@ Section NonInterference.
         destruct (existsb _ args); [apply ni_raise|].
         destruct args as [|a rest]; [apply ni_raise|]. inversion Hargs as [|? ? Ha Hrest]; subst.
         destruct a; try apply ni_raise.
+        + destruct (cat_strs _ _); [apply ni_ret; exact I|apply ni_raise].
         + destruct rest as [|b rest']; [apply ni_ret; assumption|].
           destruct Ha as [Ha1 Ha2].
           destruct (val_list a2) as [l2|] eqn:E2; [|apply ni_raise].
@@ -1508,6 +1550,8 @@ Section NonInterference.
         + eapply ni_bind; [apply ni_get_arr|]. intros o Ho; cbv beta in Ho.
           eapply ni_bind; [apply ni_cat_arrs; assumption|]. intros els Hels.
           apply ni_alloc_arr; assumption.
+      - (* PDiv *)
+        destruct args; [apply ni_raise|]. inversion Hargs; subst. apply ni_divide; assumption.
       - (* PMap *)
         destruct args as [|f [|c [|? ?]]]; try apply ni_raise.
         inversion Hargs as [|? ? Hf Hr]; subst. inversion Hr; subst.
@@ -1555,7 +1599,8 @@ Section NonInterference.
     match d with
     | DInt _ => I
     | DSym _ => I
-    | DFlt _ => I
+    | DFlt h => match norm2 80 h (-1) as p return val_ok (let '(m, e) := p in VFlt m e) with (_, _) => I end
+    | DChr _ => I
     | DList ds =>
       (fix go (l : list datum) : val_ok (fold_right (fun x acc => VPair (datum_val x) acc) VNil l) :=
          match l with
@@ -1910,6 +1955,10 @@ Proof.
   assert (Harith : forall op r acc, quiet (arith op acc r)).
   { induction r as [|b r IH]; simpl; intros acc; [destruct acc; first [apply quiet_ret|apply quiet_raise]|].
     destruct acc; try apply quiet_raise; destruct b; try apply quiet_raise. apply IH. }
+  assert (Hdiv : forall r acc, quiet (divide acc r)).
+  { induction r as [|b r IH]; simpl; intros acc; [apply quiet_ret|].
+    destruct acc; try apply quiet_raise. destruct b; try apply quiet_raise.
+    destruct (_ =? 0); [apply quiet_raise|]. destruct (_ =? 0); apply IH. }
   assert (Hcmp : forall test a, quiet (compare_prim test a)).
   { intros test a. unfold compare_prim. destruct a as [|x [|y [|? ?]]]; try apply quiet_raise.
     apply quiet_state. intros s. destruct (cmp_val _ _ _ _); split; intros; discriminate. }
@@ -1931,7 +1980,7 @@ Proof.
     destruct b; try apply quiet_raise. apply quiet_bind; [apply Hget|]. intros o. apply IH. }
   destruct p; simpl;
     repeat first
-      [ apply quiet_ret | apply quiet_raise | apply Halloc | apply Hcmp | apply Harith | apply Hap | apply Hmp
+      [ apply quiet_ret | apply quiet_raise | apply Halloc | apply Hcmp | apply Harith | apply Hdiv | apply Hap | apply Hmp
       | apply quiet_bind; [first [apply Hget | apply Hma | apply Hcat]|intros ?]
       | apply quiet_state; intros ?; split; intros; discriminate
       | match goal with |- quiet (match ?x with _ => _ end) => destruct x end
